@@ -518,7 +518,7 @@ func c15(x *mon.Ctx) {
 	// ---- the real LinuxDevice (ioctl path) on a regular file, with the kernel's answers injected by strace
 	realDevice(x, fake)
 	x.Require("provider-supported", 4, 2, 6)
-	x.Require("provider-unsupported", 0, 0, 3)
+	x.Require("provider-unsupported", 0, 0, 2)
 	_ = world.Epoch
 }
 
